@@ -41,13 +41,8 @@ def chunkSize (sz : Nat) : Nat :=
   else (List.range 20).foldl (fun x _ => if x < sz then x * 2 else x) 1024
 
 structure St where
-  w : World
-  q0 : Cq
-  q1 : Cq
+  s : Sys
   nsrc : Nat
-
-def St.q (s : St) (i : Nat) : Cq := if i % 2 = 0 then s.q0 else s.q1
-def St.setQ (s : St) (i : Nat) (q : Cq) : St := if i % 2 = 0 then { s with q0 := q } else { s with q1 := q }
 
 def readable (w : World) : Chunk → Bytes
   | .mem d off _ => d.drop off
@@ -65,87 +60,66 @@ def dumpCq (w : World) (i : Nat) (q : Cq) : String :=
   let lay := if q.chunks.isEmpty then "-" else ".".intercalate (q.chunks.map layoutChunk)
   s!" q{i}:{q.length},{q.bytesIn},{q.bytesOut},{q.tdIdx},{n},{hex8 c},{lay}"
 
-def dumpState (s : St) : String :=
-  let temps := (List.range (s.w.nfiles - s.nsrc)).filterMap fun k =>
-    let f := s.w.files (s.nsrc + k)
+def dumpState (st : St) : String :=
+  let w := st.s.w
+  let temps := (List.range (w.nfiles - st.nsrc)).filterMap fun k =>
+    let f := w.files (st.nsrc + k)
     if f.nlink > 0 then some s!"{k}@{f.dir}" else none
-  let fds : Int := (List.range s.w.nfiles).foldl (fun a k => a + (s.w.files k).nfd) 0
-  dumpCq s.w 0 s.q0 ++ dumpCq s.w 1 s.q1 ++ " t:" ++ (if temps.isEmpty then "-" else ",".intercalate temps)
+  let fds : Int := (List.range w.nfiles).foldl (fun a k => a + (w.files k).nfd) 0
+  dumpCq w 0 st.s.q0 ++ dumpCq w 1 st.s.q1 ++ " t:" ++ (if temps.isEmpty then "-" else ",".intercalate temps)
     ++ s!" fd:{fds}"
-
-def allMem (q : Cq) : Bool := !q.chunks.isEmpty && q.chunks.all Chunk.isMem
 
 def rcStr (ok : Bool) : String := if ok then "0" else "-1"
 
-/-- one operation: new state and the result token -/
-def doOp (s : St) (tok : String) : St × String :=
-  let f := tok.splitOn ","
-  match f with
+/-- token -> operation of the model -/
+def parseOp (nsrc : Nat) (tok : String) : Option Op :=
+  match tok.splitOn "," with
   | op :: qs :: args =>
     match qs.toNat?, args.mapM String.toNat? with
-    | some qi, some a =>
-      let q := s.q qi
-      let o := s.q (qi + 1)
+    | some qn, some a =>
+      let qi := qn % 2 = 1
       match op, a with
-      | "am", [seed, len] =>
-        let (w, q) := appendMem s.w q (pat seed len); ({ s with w := w }.setQ qi q, op)
-      | "an", [seed, len] =>
-        let (w, q) := appendMemMin s.w q (pat seed len); ({ s with w := w }.setQ qi q, op)
-      | "ab", [seed, len] =>
-        let (w, q) := appendBuffer s.w q (pat seed len); ({ s with w := w }.setQ qi q, op)
-      | "bo", [seed, len] =>
-        let (w, q) := appendBufferOpen s.w q (pat seed len); ({ s with w := w }.setQ qi q, op)
-      | "gm", [req, seed, use] =>
-        let (w, q, avail) := getUseMemory s.w q req use (pat seed)
-        ({ s with w := w }.setQ qi q, s!"gm:{avail}")
-      | "af", [fid, off, len] =>
-        if fid ≥ s.nsrc then (s, "bad-op") else
-        let (w, q) := appendFile s.w q fid off len false; ({ s with w := w }.setQ qi q, op)
-      | "ad", [fid, off, len] =>
-        if fid ≥ s.nsrc then (s, "bad-op") else
-        let (w, q) := appendFile s.w q fid off len true; ({ s with w := w }.setQ qi q, op)
-      | "ac", [] =>
-        let (q, o) := appendChunkqueue q o; ((s.setQ qi q).setQ (qi + 1) o, op)
-      | "mt", [seed, len] =>
-        let (w, q, ok) := appendMemToTempfile s.w q (pat seed len)
-        ({ s with w := w }.setQ qi q, "mt:" ++ rcStr ok)
-      | "st", [n] =>
-        let (w, q, o) := steal s.w q o n; (({ s with w := w }.setQ qi q).setQ (qi + 1) o, op)
-      | "sw", [n] =>
-        let (w, q, o, ok) := stealWithTempfiles s.w q o n
-        (({ s with w := w }.setQ qi q).setQ (qi + 1) o, "sw:" ++ rcStr ok)
-      | "cr", [si, off, len] =>
-        if si % 2 = qi % 2 then
-          if len > 0 ∧ (off + len : Int) > q.length then (s, "cr:skip")
-          else
-            let (w, q) := appendCqRangeSelf s.w q off len; ({ s with w := w }.setQ qi q, op)
-        else
-          let (w, q) := appendCqRange s.w q o off len; ({ s with w := w }.setQ qi q, op)
-      | "mw", [n] =>
-        if (n : Int) ≤ q.length then
-          let (w, q) := markWritten s.w q n; ({ s with w := w }.setQ qi q, op)
-        else (s, "mw:skip")
-      | "rf", [] => let (w, q) := removeFinished s.w q; ({ s with w := w }.setQ qi q, op)
-      | "re", [] => let (w, q) := removeEmpty s.w q; ({ s with w := w }.setQ qi q, op)
-      | "cm", [clen] =>
-        if allMem q then let (w, q) := compactMem s.w q clen; ({ s with w := w }.setQ qi q, op)
-        else (s, "cm:skip")
-      | "co", [] =>
-        if q.chunks.isEmpty then (s, "co:skip") else (s.setQ qi (compactMemOffset q), op)
-      | "pk", [n] =>
-        let (w, q, data, ok) := peekData s.w q n
-        ({ s with w := w }.setQ qi q, s!"pk:{rcStr ok},{data.length},{crcHex data}")
-      | "rd", [n] =>
-        match readData s.w q n with
-        | (w, q, some data) => ({ s with w := w }.setQ qi q, s!"rd:0,{crcHex data}")
-        | (w, q, none) => ({ s with w := w }.setQ qi q, "rd:-1")
-      | "sq", [] =>
-        let (w, q, ok) := readSquash s.w q
-        ({ s with w := w }.setQ qi q, if ok then "sq:1" else "sq:0")
-      | "rs", [] => let (w, q) := reset s.w q; ({ s with w := w }.setQ qi q, op)
-      | _, _ => (s, "bad-op")
-    | _, _ => (s, "bad-op")
-  | _ => (s, "bad-op")
+      | "am", [seed, len] => some (.appendMem qi (pat seed len))
+      | "an", [seed, len] => some (.appendMemMin qi (pat seed len))
+      | "ab", [seed, len] => some (.appendBuffer qi (pat seed len))
+      | "bo", [seed, len] => some (.appendBufferOpen qi (pat seed len))
+      | "gm", [req, seed, use] => some (.getUseMemory qi req (pat seed use))
+      | "af", [fid, off, len] => if fid < nsrc then some (.appendFile qi fid off len false) else none
+      | "ad", [fid, off, len] => if fid < nsrc then some (.appendFile qi fid off len true) else none
+      | "ac", [] => some (.appendChunkqueue qi)
+      | "mt", [seed, len] => some (.appendMemToTempfile qi (pat seed len))
+      | "st", [n] => some (.steal qi n)
+      | "sw", [n] => some (.stealWithTempfiles qi n)
+      | "cr", [si, off, len] => some (.appendCqRange qi (decide ((si % 2 = 1) = qi)) off len)
+      | "mw", [n] => some (.markWritten qi n)
+      | "rf", [] => some (.removeFinished qi)
+      | "re", [] => some (.removeEmpty qi)
+      | "cm", [clen] => some (.compactMem qi clen)
+      | "co", [] => some (.compactMemOffset qi)
+      | "pk", [n] => some (.peekData qi n)
+      | "rd", [n] => some (.readData qi n)
+      | "sq", [] => some (.readSquash qi)
+      | "rs", [] => some (.reset qi)
+      | _, _ => none
+    | _, _ => none
+  | _ => none
+
+/-- result token as printed by h_cq.c -/
+def resStr (name : String) : Res → String
+  | .done => name
+  | .skipped => name ++ ":skip"
+  | .avail n => s!"gm:{n}"
+  | .rc ok => if name = "sq" then (if ok then "sq:1" else "sq:0") else name ++ ":" ++ rcStr ok
+  | .peeked ok d => s!"pk:{rcStr ok},{d.length},{crcHex d}"
+  | .read (some d) => s!"rd:0,{crcHex d}"
+  | .read none => "rd:-1"
+
+def doOp (st : St) (tok : String) : St × String :=
+  match parseOp st.nsrc tok with
+  | none => (st, "bad-op")
+  | some op =>
+    let (s', r) := step st.s op
+    ({ st with s := s' }, resStr ((tok.splitOn ",").headD "") r)
 
 def parseW (s : String) : Option (List WFault) :=
   if s = "-" then some [] else
@@ -169,15 +143,14 @@ def initWorld (cs tmpsz ndirs : Nat) (ws : List WFault) (ms : List Bool) (files 
   { cs := chunkSize cs, defTempSize := if tmpsz = 0 then 1048576 else tmpsz, ndirs := ndirs,
     files := fun i => fl.getD i {}, nfiles := fl.length, wsched := ws, msched := ms }
 
-def runOps (s : St) (ops : List String) : String :=
-  let (s, out) := ops.foldl (fun (acc : St × String) tok =>
-    let (s, o) := acc
-    let (s', r) := doOp s tok
-    (s', o ++ r ++ dumpState s' ++ " | ")) (s, "")
-  let (w, q0) := reset s.w s.q0
-  let (w, q1) := reset w s.q1
-  out ++ "end" ++ dumpState { s with w := w, q0 := q0, q1 := q1 }
-    ++ s!" ws:{w.wsched.length} ms:{w.msched.length}"
+def runOps (st : St) (ops : List String) : String :=
+  let (st, out) := ops.foldl (fun (acc : St × String) tok =>
+    let (st, o) := acc
+    let (st', r) := doOp st tok
+    (st', o ++ r ++ dumpState st' ++ " | ")) (st, "")
+  let s := (step (step st.s (.reset false)).1 (.reset true)).1
+  out ++ "end" ++ dumpState { st with s := s }
+    ++ s!" ws:{s.w.wsched.length} ms:{s.w.msched.length}"
 
 end CqD
 
@@ -188,7 +161,7 @@ def cqLine : List String → String
       if ndirs > 3 then "bad-op" else
       let w := CqD.initWorld cs tmpsz ndirs ws ms files
       let q : Cq := { tempSize := w.defTempSize }
-      CqD.runOps { w := w, q0 := q, q1 := q, nsrc := files.length } ops
+      CqD.runOps { s := { w := w, q0 := q, q1 := q }, nsrc := files.length } ops
     | _, _, _, _, _, _ => "bad-op"
   | _ => "bad-op"
 
